@@ -82,6 +82,10 @@ class V:
                 self.add("out-of-range", path, "%r below minimum %r" % (v, kind["min"]))
             if "max" in kind and v > kind["max"]:
                 self.add("out-of-range", path, "%r above maximum %r" % (v, kind["max"]))
+            # the integer type itself: a signed 54-bit value in 2.1 (RFC 7493), a signed 64-bit value in 2.0
+            lim = 2 ** 53 - 1 if self.version == "2.1" else 2 ** 63 - 1
+            if abs(v) > lim:
+                self.add("integer-type-range", path, "%r does not fit the STIX %s integer type (|v| <= %d)" % (v, self.version, lim))
         elif k == "float":
             if isinstance(v, bool) or not isinstance(v, (int, float)):
                 return self.add("wrong-json-kind", path, "number expected, got %r" % (v,))
@@ -253,6 +257,9 @@ class V:
         tbl = sub.m.types.get(t) if isinstance(t, str) else None
         if tbl is None:
             return self.add("unknown-object-type", path, "type %r (version %s)" % (t, ver))
+        if ver == "2.0" and tbl.get("cat") == "sco":
+            # a STIX 2.0 cyber observable has no id and only exists inside observed-data
+            return self.add("observable-without-id-as-member", path, "a STIX 2.0 cyber observable (%r) cannot be a bundle member" % (t,))
         sub.check_table(tbl, o, path, None, top=True)
         self.issues.extend(sub.issues)
 
